@@ -42,6 +42,8 @@ chk.assumptions = [
     'node reproduction to 1e-8*max|E| (RBF linear solve), periodicity / route agreement to 1e-9*max|E|; off-node '
     'points keep >= 5e-3 from the nearest-interpolant cell boundaries (i+1/2)/n, n in {4,5,6}',
     'conversions compared to 1e-12*(|a1vect|+|a2vect|)*(1+max|a|); result shapes only required to hold N entries',
+    'a table given with the duplicated a=1 edge must give the surface of the same table without it (fit() documents '
+    'that those rows are ignored; identical point sets), compared off-node outside the edge-blending zone to 1e-8*max|E|',
     'energy terms compared to 1e-10 * sum|terms| of the oracle loop (different summation order only)',
     'the fullstress=False docstring formula is read with the sign flip the source states ("Flip sign on tau so '
     'energies match full=True"); the promised equivalence of the two stress expressions is checked as: their '
@@ -356,6 +358,22 @@ def periodic(case):
                 j = int(math.floor(q * o.n2 + 0.5)) % o.n2
                 exp.append(o.E[i][j])
             cmp(fails, 'nearest-value', ref, exp, 1e-8 * o.Emax)
+        if o.dup:
+            # fit() documents "Ignore a1, a2=1.0 values if included": the duplicated edge carries no information, so
+            # the interpolant must be the one obtained from the same table without it (same points -> same linear
+            # solve).  Compared only outside the edge-blending zone [-c, c), c = 1/(2 n1): inside it the blending
+            # width is taken from the raw a1.max() and therefore differs with the duplicated edge (not promised).
+            cz = 0.5 / o.n1
+            inn = [k for k in range(nb) if cz <= base1[k] < 1 - cz and cz <= base2[k] < 1 - cz]
+            o0 = make_gamma(case['geom'], case['n1'], case['n2'], 0, case['delta'], salt=case.get('salt', 0))
+            r0 = call('E_gsf-a12', fails, o0.g.E_gsf, a1=np.array(base1), a2=np.array(base2), smooth=smooth)
+            if r0 is not None and cmp(fails, 'dup-edge-changes-energy-%s' % tag, ref[inn], np.asarray(r0)[inn], 1e-8 * o.Emax):
+                chk.note('gamma-queries', len(inn))
+                chk.note('gamma-queries-nontrivial', len(inn))
+            if refd is not None:
+                r0 = call('delta-a12', fails, o0.g.delta, a1=np.array(base1), a2=np.array(base2), smooth=smooth)
+                if r0 is not None:
+                    cmp(fails, 'dup-edge-changes-delta-%s' % tag, np.asarray(refd)[inn], np.asarray(r0)[inn], 1e-8 * o.Dmax)
         for (k1, k2) in itertools.product(PERIODS, repeat=2):
             a1 = [p + k1 for p in base1]
             a2 = [q + k2 for q in base2]
